@@ -410,6 +410,7 @@ func (s *Schema) UnmarshalJSON(data []byte) error {
 		Dependencies  map[string]json.RawMessage `json:"dependencies,omitempty"`
 		Items         json.RawMessage            `json:"items,omitempty"`
 		Const         json.RawMessage            `json:"const,omitempty"`
+		Examples      json.RawMessage            `json:"examples,omitempty"`
 		MinLength     *integer                   `json:"minLength,omitempty"`
 		MaxLength     *integer                   `json:"maxLength,omitempty"`
 		MinItems      *integer                   `json:"minItems,omitempty"`
@@ -500,6 +501,19 @@ func (s *Schema) UnmarshalJSON(data []byte) error {
 	// unmarshal: the *any is set to nil, not a pointer to nil.
 	if err := unmarshalAnyPtr(&s.Const, ms.Const); err != nil {
 		return err
+	}
+
+	// Examples are annotations: any JSON value is acceptable, including a
+	// number that float64 cannot hold. Keep such numbers as json.Number.
+	if len(ms.Examples) > 0 {
+		if err := json.Unmarshal(ms.Examples, &s.Examples); err != nil {
+			dec := json.NewDecoder(bytes.NewReader(ms.Examples))
+			dec.UseNumber()
+			s.Examples = nil
+			if dec.Decode(&s.Examples) != nil {
+				return err
+			}
+		}
 	}
 
 	set := func(dst **int, src *integer) {
